@@ -45,6 +45,15 @@ const KEYWORDS: &[(&str, &[&str])] = &[
     ("Forwarded", &["no", "not-needed"]),
 ];
 
+/// Words from neighbouring vocabularies (other tools' spellings of the same notions, booleans, Policy terms that are not
+/// keywords of these types). None is a keyword of any enumeration above; each is offered to every enumeration.
+const NEAR_MISSES: &[&str] = &[
+    "true", "false", "1", "0", "on", "off", "y", "n", "t", "f", "none", "all", "any", "default", "unknown", "enabled", "disabled", "always", "never", "auto",
+    "mandatory", "essential", "recommended", "suggested", "normal", "minor", "major", "urgent", "native", "source", "binary", "rpm", "rpm-src", "deb-source", "src",
+    "debian", "ubuntu", "local", "patch", "forwarded", "needed", "not needed", "notneeded", "yes please", "forced", "allow", "sameish", "self",
+    "==", "!=", "=>", "=<", "~", "ge", "le", "eq", "gt", "lt", ">>=", "<<=", "> =", "<>",
+];
+
 fn keyword_check(ty: &str, s: &str, must_accept: bool) -> CheckResult {
     // returns Ok(printed form) for accepted strings
     let res: Result<String, String> = match ty {
@@ -227,8 +236,9 @@ fn line(t: &mut Tape) -> String {
 
 fn mutate_keyword(t: &mut Tape, kw: &str) -> String {
     let chars: Vec<char> = kw.chars().collect();
-    match t.below(7) {
+    match t.below(8) {
         0 => String::new(),
+        7 => t.pick(NEAR_MISSES).to_string(),
         1 => format!(" {}", kw),
         2 => format!("{} ", kw),
         3 => {
@@ -252,7 +262,7 @@ impl PropImpl for C18 {
         "C18"
     }
     fn rule(&self) -> String {
-        "cases are typed values: every keyword of the 8 enumerations (exhaustive) and, for the rejection clause, keywords with one edit / other enumerations' keywords / empty / padded strings whose \
+        "cases are typed values: every keyword of the 8 enumerations (exhaustive) and, for the rejection clause, keywords with one edit / other enumerations' keywords / a fixed list of near-miss words from neighbouring vocabularies (true, false, on, off, ==, => ...; exhaustive) / empty / padded strings whose \
          lower-case form is not a keyword; records (4 checksum types, PackageListEntry with 0-3 extras, changes::File) over whitespace-free tokens and integers; BuildProfile; ParsedVcs and Vcs with every \
          branch/subpath/module combination; Forwarded::Yes, Origin/AppliedUpstream (commit and other) and (category, origin) through the DEP-3 header accessors; License Name/Text/Named; Signature KeyPath/KeyBlock. \
          Payloads come from each type's canonical value domain (unambiguous by the format's own rules). Non-trivial: record / payload-carrying values. Distinct by value hash.".into()
@@ -263,9 +273,18 @@ impl PropImpl for C18 {
     fn spaces(&self, _tier: Tier) -> Vec<Space> {
         let n: usize = KEYWORDS.iter().map(|k| k.1.len()).sum();
         // every keyword of every enumeration, and every keyword offered to every *other* enumeration
-        vec![Space { name: "all keywords x all enumerations".into(), size: (n * KEYWORDS.len()) as u64, exhaustive: true }]
+        vec![
+            Space { name: "all keywords x all enumerations".into(), size: (n * KEYWORDS.len()) as u64, exhaustive: true },
+            Space { name: "near-miss words x all enumerations".into(), size: (NEAR_MISSES.len() * KEYWORDS.len()) as u64, exhaustive: true },
+        ]
     }
-    fn from_enum(&self, _ctx: &mut Ctx, _tier: Tier, _space: usize, index: u64) -> Case {
+    fn from_enum(&self, _ctx: &mut Ctx, _tier: Tier, space: usize, index: u64) -> Case {
+        if space == 1 {
+            let (ty, own) = KEYWORDS[index as usize / NEAR_MISSES.len()];
+            let w = NEAR_MISSES[index as usize % NEAR_MISSES.len()];
+            assert!(!own.contains(&w));
+            return Case::Reject(ty, w.to_string());
+        }
         let all: Vec<(&'static str, &'static str)> = KEYWORDS.iter().flat_map(|(ty, ks)| ks.iter().map(move |k| (*ty, *k))).collect();
         let (_, kw) = all[index as usize % all.len()];
         let ty = KEYWORDS[index as usize / all.len()].0;
